@@ -157,6 +157,9 @@ func vfOne(e *Engine, key string, verbose bool, dump string) int {
 		for _, a := range res.Assumed {
 			fmt.Println("  assumed:", a)
 		}
+		for _, a := range res.Skipped {
+			fmt.Println("  skipped:", a)
+		}
 	}
 	fmt.Printf("%s: %d obligations, %d not discharged, %v\n", key, len(res.Obls), bad, time.Since(t0).Round(time.Millisecond))
 	return bad
